@@ -87,3 +87,71 @@ Section XReadProofs.
       + rewrite IH, <- app_assoc. f_equal. rewrite <- E. apply firstn_skipn.
   Qed.
 End XReadProofs.
+
+(* ---- the pipeline ---- *)
+Definition rdbuf (r : crpc) : list N := match r with CRDeliver b _ | CRPush b _ => b | _ => [] end.
+Definition crd_in (r : crpc) : nat := match r with CRRead | CRDeliver _ _ | CRPush _ _ => 1 | _ => 0 end.
+Definition crd_outh (r : crpc) : nat := match r with CRPush _ _ => 1 | _ => 0 end.
+Definition cwr_in (w : cwpc) : nat := match w with CWHold _ => 1 | _ => 0 end.
+Definition cwr_outh (w : cwpc) : nat := match w with CWHold _ | CWRel => 1 | _ => 0 end.
+Definition holders (s : cstate) : nat := crd_outh (k_rd s) + length (k_outq s) + cwr_outh (k_wr s).
+Definition rd_is_done (r : crpc) : bool := match r with CRDone => true | _ => false end.
+Definition started_pc (m : mpc) : bool := match m with MHalt | MJoinR | MJoinW | MDone => true | _ => false end.
+Definition copying_pc (m : mpc) : bool := match m with MSniff | MDecompress | MFail => false | _ => true end.
+
+Record CI (x : list N) (s : cstate) : Prop := {
+  ci_data : copying_pc (k_main s) = true ->
+            k_written s ++ concat (k_outq s) ++ rdbuf (k_rd s) ++ k_rest s = x;
+  ci_pre : k_started s = false ->
+           k_rd s = CRIdle /\ k_outq s = [] /\ k_wr s = CWIdle /\ k_raised s = 0 /\
+           (k_main s = MSniff -> k_rest s = x /\ k_written s = []);
+  ci_started : k_started s = started_pc (k_main s);
+  ci_in : k_started s = true -> k_in s + crd_in (k_rd s) + length (k_outq s) + cwr_in (k_wr s) = copy_in_slots;
+  ci_out : k_started s = true -> (k_out s + Z.of_nat (holders s) = Z.of_nat copy_out_slots)%Z;
+  ci_eof : k_started s = true -> k_eof s = rd_is_done (k_rd s);
+  ci_raised : k_started s = true -> k_raised s = b2n (k_eof s && (holders s =? 0));
+  ci_taken : k_taken s = match k_main s with MJoinR | MJoinW | MDone => 1 | _ => 0 end;
+  ci_le : k_taken s <= k_raised s;
+  ci_finish : k_finish s = match k_main s with MJoinW | MDone => true | _ => false end;
+  ci_joinr : (k_main s = MJoinW \/ k_main s = MDone) -> k_rd s = CRDone;
+  ci_done : k_main s = MDone -> k_wr s = CWDone;
+  ci_wdone : k_wr s = CWDone -> k_finish s = true /\ k_outq s = [];
+  ci_short : forall b sh, (k_rd s = CRDeliver b sh \/ k_rd s = CRPush b sh) -> b <> [] /\ (sh = true -> k_rest s = []);
+  ci_reof : (k_rd s = CREof \/ k_rd s = CRDone) -> k_rest s = []
+}.
+
+(* side conditions on the regenerated constants *)
+Lemma gran_pos : 0 < gran.
+Proof. unfold gran. change 0 with (N.to_nat 0). apply Nat.compare_lt_iff. rewrite <- N2Nat.inj_compare. reflexivity. Qed.
+Lemma copy_slots_eq : copy_out_slots = copy_total_out_slots.
+Proof. reflexivity. Qed.
+Lemma copy_in_pos : 0 < copy_in_slots.
+Proof. unfold copy_in_slots. lia. Qed.
+Lemma hdr_len_ok : forall v, v <= sniff_size -> copy_hdr_len v = sniff_size - v.
+Proof. intros v H. reflexivity. Qed.
+
+Lemma raise_cond_spec (s : cstate) :
+  (k_out s + Z.of_nat (holders s) = Z.of_nat copy_out_slots)%Z ->
+  copy_raise_cond (cview s) = k_eof s && (holders s =? 0).
+Proof.
+  intros H. unfold copy_raise_cond, cview. cbn [g_eof g_out_slots g_total_out_slots]. f_equal.
+  unfold view_out. rewrite <- copy_slots_eq.
+  destruct (Z.leb_spec 0 (k_out s)); destruct (Nat.eqb_spec (holders s) 0) as [E|E];
+    try (apply Nat.eqb_eq; lia); try (apply Nat.eqb_neq; lia).
+Qed.
+
+Arguments ci_data {x s} _.
+Arguments ci_pre {x s} _.
+Arguments ci_started {x s} _.
+Arguments ci_in {x s} _.
+Arguments ci_out {x s} _.
+Arguments ci_eof {x s} _.
+Arguments ci_raised {x s} _.
+Arguments ci_taken {x s} _.
+Arguments ci_le {x s} _.
+Arguments ci_finish {x s} _.
+Arguments ci_joinr {x s} _.
+Arguments ci_done {x s} _.
+Arguments ci_wdone {x s} _.
+Arguments ci_short {x s} _.
+Arguments ci_reof {x s} _.
